@@ -299,6 +299,10 @@ Inductive mode :=
 | MCloseWs (nm : bytes).
 Record pst := mk { p_stack : list frame; p_root : option node; p_mode : mode }.
 
+(* List.rev is quadratic once extracted (rev l ++ [x]); the two places that reverse a text of unbounded length -- character data and an
+   attribute value -- use the linear rev_append (equal to rev: frev_rev in C16_Parse.v) *)
+Definition frev (l : bytes) : bytes := rev_append l [].
+
 Definition add_node (stack : list frame) (root : option node) (n : node) : option (list frame * option node) :=
   match stack with
   | (fn, fa, kids) :: r => Some ((fn, fa, n :: kids) :: r, root)
@@ -309,7 +313,7 @@ Definition flush_text (stack : list frame) (root : option node) (acc : bytes) : 
   | [] => Some (stack, root)
   | _ => match stack with
          | [] => if all_ws acc then Some (stack, root) else None
-         | _ => add_node stack root (Text (rev acc))
+         | _ => add_node stack root (Text (frev acc))
          end
   end.
 
@@ -401,7 +405,7 @@ Definition step (st : pst) (c : N) : option pst :=
       | _ => if ws_cls k then Some st else None
       end
   | MAttrVal nm attrs an q acc cr =>
-      if c =? q then Some (mk S R (MAttrs nm ((an, rev acc) :: attrs) false))
+      if c =? q then Some (mk S R (MAttrs nm ((an, frev acc) :: attrs) false))
       else match k with
            | KBad | KLt => None
            | KAmp => Some (mk S R (MAttrEnt nm attrs an q acc []))
